@@ -60,7 +60,8 @@ def run(ctx, replay):
         "distinct_nontrivial": sum(s.get("tokens", 0) for s in sums + s2),
         "rule": "TLC: every token string of <= MaxToks tokens from a catalogue of 18 (tokens with inner whitespace, dimension names with . - _, "
                 "unknown dimension, 8 near-misses, literals) x 6 permutations (incl. token-shaped values) x 13 position classes, each placed "
-                "in a full command step; plus seeded random assignments of all classes at once. Non-trivial = number of real tokens placed.",
+                "in a full command step; plus seeded random assignments of all classes at once (a third with YAML aliases to one unknown-field "
+                "value, a third with twin token keys whose first value is spelled like the second key). Non-trivial = number of real tokens placed.",
         "exhaustive": True,
         "trace_events_rejected": len(bad),
     }
